@@ -457,6 +457,30 @@ class Exec:
             if cp is not None and (base.path, idx) in cp.stores:
                 return cp.stores[(base.path, idx)]
             return base.field(idx, ty)
+        if isinstance(base, CurrencyV):
+            # CurrencyInfo fields as functions of the currency identity; field 0 (code) is injective
+            t = norm_type(ty)
+            if idx == 0:
+                code = z3.Function("currency.code", z3.IntSort(), z3.StringSort())
+                ids = getattr(self, "_currency_ids", [])
+                key = base.id.sexpr()
+                if key not in [i.sexpr() for i in ids]:
+                    for other in ids:   # CurrencyInfo's Eq/Ord compare the code: identity <=> equal code
+                        self.domain.append((base.id == other) == (code(base.id) == code(other)))
+                    ids.append(base.id)
+                    self._currency_ids = ids
+                return StrV(code(base.id))
+            if t in ("alloc::string::String", "String", "str"):
+                return StrV(z3.Function("currency.f%d" % idx, z3.IntSort(), z3.StringSort())(base.id))
+            if t == "bool":
+                return z3.Function("currency.f%d" % idx, z3.IntSort(), z3.BoolSort())(base.id)
+            if t in INT_TYPES:
+                bits, signed = INT_TYPES[t]
+                term = z3.Function("currency.f%d" % idx, z3.IntSort(), z3.IntSort())(base.id)
+                v = IntV(term, bits, signed)
+                self.domain.append(z3.And(term >= v.lo(), term <= v.hi()))
+                return v
+            raise Unsupported("CurrencyInfo field %d: %s" % (idx, ty))
         if isinstance(base, DurationV) and idx == 0:
             return IntV(base.secs, 64, True)
         raise Unsupported("projection .%d of %r" % (idx, base))
